@@ -370,3 +370,6 @@ CELLS = [
     Cell("C08/chord/curve-kinds", chord_case(xe.CURVE_KINDS), check_chord, 200, 6000,
          "Edge.length >= |v2 - v1| (1 - 1e-6) for edges snapped to line, circle and interpolated curves"),
 ]
+
+# thorough tier: coverage-guided campaigns (atheris / libFuzzer) over the purely numeric arc cells
+FUZZ_CELLS = [(c.id, 20000) for c in CELLS if c.id in ("C08/angle/mid-point-and-length", "C08/origin/mid-point-and-length", "C08/arc3/length")]
